@@ -316,7 +316,11 @@ func (s *System) step(a Action) (line TraceLine) {
 			}
 		}
 	}
-	s.quiesce()
+	if !s.quiesce() {
+		// goroutines the stack started for this input (callbacks, application-level handlers) never end: reported as a
+		// hang of the step (the replay process ends after this line: nothing after it can be trusted)
+		line.Ret, line.Pan = "panic", "hang: callbacks or handlers started by the stack for this input did not finish within 20 s (a call of the stack blocks forever)"
+	}
 	// whatever the stack does for an input is done when the call returns (only callbacks and application-level event
 	// handlers run asynchronously): datagrams written after the return are counted
 	for _, pn := range s.topo.Peers {
@@ -885,7 +889,14 @@ func (s *System) respCb2(k string) func(api.ResponseMessage) {
 //
 //go:noinline
 func (s *System) resCb(k string, cb int) func(api.ResponseMessage) {
-	return func(m api.ResponseMessage) { s.fired(k, cb, "res", m) }
+	return func(m api.ResponseMessage) {
+		// a result callback calls back into its feature (it registers a response callback for a counter nobody will ever
+		// reference, as an application preparing a follow-up request would): this must not block it or the callbacks after it
+		if f, ok := s.lfeat[k]; ok {
+			_ = f.AddResponseCallback(model.MsgCounterType(4000000+cb), func(api.ResponseMessage) {})
+		}
+		s.fired(k, cb, "res", m)
+	}
 }
 func (s *System) resCb1(k string) func(api.ResponseMessage) { return s.resCb(k, 1) }
 func (s *System) resCb2(k string) func(api.ResponseMessage) { return s.resCb(k, 2) }
@@ -906,17 +917,17 @@ func (s *System) drainCbf() []CbFire {
 
 // quiesce waits until every goroutine the stack spawned for callbacks / application handlers has finished:
 // the goroutine count is back at the baseline for two consecutive polls (no fixed sleeps)
-func (s *System) quiesce() {
+func (s *System) quiesce() bool {
 	if runtime.NumGoroutine() <= s.baseG {
-		return
+		return true
 	}
-	deadline := time.Now().Add(10 * time.Second)
+	deadline := time.Now().Add(20 * time.Second)
 	ok := 0
 	for time.Now().Before(deadline) {
 		if runtime.NumGoroutine() <= s.baseG {
 			ok++
 			if ok >= 2 {
-				return
+				return true
 			}
 		} else {
 			ok = 0
@@ -924,7 +935,7 @@ func (s *System) quiesce() {
 		runtime.Gosched()
 		time.Sleep(50 * time.Microsecond)
 	}
-	panic("quiescence watchdog expired")
+	return false
 }
 
 // ---- helpers for concurrent drivers (C17): the peer's counter and reader are shared between goroutines ----
